@@ -224,6 +224,20 @@ def _variants_create_solution():
                 yield label, mk
 
 
+def _variants_distinct_concentrations():
+    """Two solutes with two different concentration strings (each with its own unit pair) and a total quantity."""
+    for sol in (['solid', 'liquid'], ['liquid', 'enzyme']):
+        label = f"concentration[2 distinct]+total_quantity solute={'+'.join(sol)} solvent=liquid"
+
+        def mk(I, sol=sol):
+            kw = DictV()
+            kw['concentration'] = ListV([UserStr('c0'), UserStr('c1')])
+            kw['total_quantity'] = UserStr('total_quantity')
+            return {'solute': ListV(Subst(k, f"solute{i}") for i, k in enumerate(sol)), 'solvent': Subst('liquid', 'solvent'),
+                    'name': NONE, 'kwargs': kw}
+        yield label, mk
+
+
 def _variants_create_solution_from():
     for sk in KINDS:
         for vk, vmk in (('solvent=liquid', lambda: Subst('liquid', 'solvent')), ('solvent=solid', lambda: Subst('solid', 'solvent')),
@@ -253,6 +267,14 @@ def scan_solver(ctx, qualname, quick_subset=True):
                     continue
             R = explore(ctx.model, fi, mk, opts)
             sc.add(label, R)
+        if qualname.endswith('create_solution'):
+            o2 = dict(opts)
+            if ctx.tier == 'quick':
+                o2['pc_nums'] = ('mol', 'g', 'L')
+                o2['pc_dens'] = ('mol', 'g', 'L')
+                o2['pq_bases'] = ('L', 'g')
+            for label, mk in list(_variants_distinct_concentrations())[:(1 if ctx.tier == 'quick' else 2)]:
+                sc.add(label, explore(ctx.model, fi, mk, o2))
     except Incomplete as exc:
         sc.incomplete = str(exc)
     uscan._cache[key] = sc
